@@ -278,6 +278,7 @@ type Runner struct {
 	// SweepEvery > 1 compares all lookups with the model only every n-th op (large-scale scenarios); Drain always sweeps.
 	SweepEvery int
 	nops       int
+	dead       bool // the implementation panicked: no further ops are applied
 	// faultArmed: set by Do for the current op iff an injected store fault fired during it
 	faultArmed bool
 }
@@ -316,8 +317,31 @@ func (r *Runner) History() []string { return r.hist }
 // Held returns the number of live holders per the model.
 func (r *Runner) Held() int { return len(r.model.owner) }
 
-// Do applies one op to implementation and model, then checks.
+// Do applies one op to implementation and model, then checks. A panic of the implementation is a finding
+// (after a reload: the restored pool does not answer as the original did), not the end of the run.
 func (r *Runner) Do(op Op) {
+	if r.dead {
+		return
+	}
+	defer func() {
+		if p := recover(); p != nil {
+			r.dead = true
+			msg := fmt.Sprint(p)
+			if len(msg) > 80 {
+				msg = msg[:80]
+			}
+			cls := "panic:" + strings.ReplaceAll(errClass(fmt.Errorf("%s", msg)), " ", "-")
+			if r.Obs.Ops["reload"] > 0 {
+				r.bad("C12", "serialise-restore", "restored-pool-"+cls, "%s panicked after a reload: %v", op.String(), p)
+			}
+			r.bad("C01", "operation-completes", cls, "%s panicked: %v", op.String(), p)
+			r.bad("C05", "operation-completes", cls, "%s panicked: %v", op.String(), p)
+		}
+	}()
+	r.do(op)
+}
+
+func (r *Runner) do(op Op) {
 	r.hist = append(r.hist, op.String())
 	r.Obs.Ops[op.K]++
 	s := r.Spec
@@ -450,7 +474,20 @@ func (r *Runner) Do(op Op) {
 				} else if !fired() {
 					r.bad("C05", "renew-within-grace", "renew-failed-for-holder", "Renew(%s) failed (%v) for a live holder", op.Sub, err)
 				} else {
-					resync()
+					// the store write of the renewal failed: the lease itself must survive (memory and store agree,
+					// nobody else may be given the address)
+					sv, sok := fi.StoreHas(op.Sub)
+					lv, lfound, lsup := r.pool.Lookup(op.Sub)
+					if agreedBefore && lsup && (sok != lfound || (sok && sv != lv)) {
+						r.bad("C12", "memory-store-agreement", "renew-failed-write", "after failed store write during Renew(%s): memory has (%v,%v) store has (%v,%v)", op.Sub, lv, lfound, sv, sok)
+					}
+					if lsup && !lfound {
+						pv, _ := r.model.held(op.Sub)
+						r.bad("C01", "idempotent-reask", "holder-dropped-on-failed-store-write", "Renew(%s) by the holder of %v failed on a store write and the implementation no longer knows the assignment", op.Sub, pv)
+						r.model.drop(op.Sub)
+					} else {
+						resync()
+					}
 				}
 			}
 		}
@@ -471,7 +508,21 @@ func (r *Runner) Do(op Op) {
 		if len(units) == 0 {
 			break
 		}
-		v := units[idx%len(units)]
+		v := units[((idx%len(units))+len(units))%len(units)]
+		if op.V == "past" || op.V == "before" {
+			v = outside(s, units, op.V == "past")
+			if !v.IsValid() {
+				break
+			}
+			if err := sp.AllocSpecific(op.Sub, v); err == nil {
+				r.bad("C01", "in-range", "specific-accepted-"+op.V+"-the-range", "AllocateSpecific(%s,%v) succeeded although %v lies outside %v", op.Sub, v, v, s.Range)
+			}
+			if got, found, sup := r.pool.Lookup(op.Sub); sup && found && got == v {
+				r.model.drop(op.Sub) // follow the implementation so that later ops are judged on their own
+				r.model.set(op.Sub, v)
+			}
+			break
+		}
 		err := sp.AllocSpecific(op.Sub, v)
 		prev, had := r.model.held(op.Sub)
 		o, taken := r.model.byVal[v]
@@ -515,6 +566,28 @@ func (r *Runner) Do(op Op) {
 			idx = len(units) + idx
 		}
 		v := units[((idx%len(units))+len(units))%len(units)]
+		if op.V == "past" || op.V == "before" {
+			// a replayed / announced record naming the unit just outside the pool must not be adopted
+			v = outside(s, units, op.V == "past")
+			if !v.IsValid() {
+				break
+			}
+			if _, storeBacked := r.pool.(FaultInjectable); storeBacked {
+				if _, h := r.model.held(op.Sub); h {
+					// the harness delivers an announcement by writing the shared store first: doing that for a
+					// live holder would replace its good record by the bogus one and make a later restart from
+					// the store lose the holder for a reason that is not the implementation's
+					break
+				}
+			}
+			_ = mv.Move(op.Sub, v)
+			if got, found, sup := r.pool.Lookup(op.Sub); sup && found && got == v {
+				r.bad("C01", "in-range", "record-adopted-"+op.V+"-the-range", "a record placing %s on %v was adopted although %v lies outside %v", op.Sub, v, v, s.Range)
+				r.model.drop(op.Sub)
+				r.model.set(op.Sub, v)
+			}
+			break
+		}
 		o, taken := r.model.byVal[v]
 		if _, storeBacked := r.pool.(FaultInjectable); storeBacked && taken && o != op.Sub {
 			// a remote announcement for an address another subscriber holds is a cluster-level conflict;
@@ -602,6 +675,9 @@ func (r *Runner) sweep() {
 		if !sup {
 			break
 		}
+		if found && !inRange(s, got) {
+			r.bad("C01", "in-range", "lookup-shows-"+rangeClass(s, got), "Lookup(%s)=%v which is not a /%d unit inside %v", sub, got, s.UnitBits, s.Range)
+		}
 		switch {
 		case had && !found:
 			r.bad("C01", "lookup-agrees", "holder-not-found", "Lookup(%s) finds nothing but the subscriber holds %v", sub, want)
@@ -660,9 +736,19 @@ func cmpClass(what string, got, want int) string {
 // usable = held + obtainable.
 func (r *Runner) Drain(tag string) {
 	s := r.Spec
-	if s.Usable < 0 || s.Usable > 4096 {
+	if s.Usable < 0 || s.Usable > 4096 || r.dead {
 		return
 	}
+	defer func() {
+		if p := recover(); p != nil {
+			r.dead = true
+			r.bad("C05", "operation-completes", "panic-during-drain", "allocation of a fresh subscriber panicked: %v", p)
+			r.bad("C01", "operation-completes", "panic-during-drain", "allocation of a fresh subscriber panicked: %v", p)
+			if r.Obs.Ops["reload"] > 0 {
+				r.bad("C12", "serialise-restore", "restored-pool-panic-during-drain", "allocation of a fresh subscriber panicked after a reload: %v", p)
+			}
+		}
+	}()
 	held := len(r.model.owner)
 	got := 0
 	r.hist = append(r.hist, "drain")
@@ -723,3 +809,37 @@ func min(a, b int) int {
 }
 
 func yield() { runtimeGosched() }
+
+// outside returns the unit directly after (past) or before the configured range, or the zero Prefix.
+func outside(s *Spec, units []netip.Prefix, past bool) netip.Prefix {
+	if len(units) == 0 {
+		return netip.Prefix{}
+	}
+	if past {
+		b := units[len(units)-1].Addr().AsSlice()
+		addShifted(b, 1, units[0].Addr().BitLen()-s.UnitBits)
+		a, ok := netip.AddrFromSlice(b)
+		if !ok || s.Range.Contains(a) {
+			return netip.Prefix{}
+		}
+		return netip.PrefixFrom(a, s.UnitBits)
+	}
+	// before: subtract one unit from the first
+	b := units[0].Addr().AsSlice()
+	shift := units[0].Addr().BitLen() - s.UnitBits
+	idx := len(b) - 1 - shift/8
+	sub := byte(1) << uint(shift%8)
+	for j := idx; j >= 0; j-- {
+		old := b[j]
+		b[j] -= sub
+		if old >= sub {
+			break
+		}
+		sub = 1
+	}
+	a, ok := netip.AddrFromSlice(b)
+	if !ok || s.Range.Contains(a) {
+		return netip.Prefix{}
+	}
+	return netip.PrefixFrom(a, s.UnitBits)
+}
